@@ -171,9 +171,9 @@ theorem simple_traceSel (pfx : String) (s : Selector) (op : ScriptOp) (rest : Sc
   obtain ⟨e, he, _, _⟩ := hs.attrs
   obtain ⟨es, _, hX⟩ := simpleSel_shape c pfx s op rest X e h he hr
   refine ⟨fun extra env => simple_traceRows o ao hp c d hr hcons pfx s op rest X h hs extra env, ?_, ?_⟩
-  · rcases hX with ⟨_, rfl⟩ | ⟨a, f, v, _, _, _, rfl⟩ <;> exact Or.inr ⟨_, _, rfl⟩
+  · rcases hX with ⟨_, rfl⟩ | ⟨a, f, v, _, _, _, _, rfl⟩ <;> exact Or.inr ⟨_, _, rfl⟩
   · intro extra env
-    rcases hX with ⟨_, rfl⟩ | ⟨a, f, v, _, _, _, rfl⟩ <;>
+    rcases hX with ⟨_, rfl⟩ | ⟨a, f, v, _, _, _, _, rfl⟩ <;>
     · rw [grpSel_addCols]
       simp only [grpSel, Sel.withs]
       rw [evalSelG_true]
